@@ -30,7 +30,9 @@ ISSUE, LAND, STEP, REAP, FCANCEL, CLAND, STOP, HEXIT, HRESUME = range(9)
 OPN = {ISSUE: "ThreadIssue", LAND: "ThreadLand", STEP: "TaskStep", REAP: "TaskReap", FCANCEL: "FutureCancel",
        CLAND: "CancelLand", STOP: "Stop", HEXIT: "HostExit", HRESUME: "ResumeHost"}
 KSYNC, KCORO, KSTART = 0, 1, 2
-F_BLOCK, F_RETURN, F_RAISE, F_RERAISE = 0, 1, 2, 3
+F_BLOCK, F_RETURN, F_RAISE, F_RERAISE, F_CANCEL_OWN = 0, 1, 2, 3, 4
+# payload of F_CANCEL_OWN (ignored by the model): how the callable's own cancellation comes about
+OWN_RAISE, OWN_AWAIT_CANCELLED, OWN_NATIVE = 0, 1, 2   # raise CancelledError() / awaited future cancelled / Task.cancel()
 E_NOSTART = 50
 NOBS_GLOBAL = 7
 NOBS_CALL = 9
@@ -99,6 +101,7 @@ class CallRec:
         self.final = None                  # ('ret', v) | ('raise', exc) | ('cancelled',)
         self.started_val = None
         self.interrupts = 0
+        self.own_cancel = False            # the callable's own outcome was a cancellation not requested via the portal
         self.steps_after_left = 0
         self.cancel_threads: list = []     # [thread, result-box, handle-or-None]
         self.cancel_handle = None
@@ -124,6 +127,9 @@ class PortalRun:
         self.host_exc = None
         self.stopped_ever = False
         self.cancel_remaining_requested = False   # some stop(cancel_remaining=True) ran while the group was entered
+        self.group_cancel_cause = None     # why the portal's group scope may legitimately be cancelled
+        self.group_cancel_reported = False
+        self.own_cancel_seen = False
         self.portal = None
         self.body_fut = None
         self.harness_errors: list[str] = []
@@ -320,6 +326,10 @@ class PortalRun:
                 if fin == F_RETURN:
                     rec.final = ("ret", val)
                     return val
+                if fin == F_CANCEL_OWN:
+                    rec.final = ("cancelled",)
+                    rec.own_cancel = True
+                    raise CancelledError()
                 exc = make_exc(val)
                 rec.final = ("raise", exc)
                 raise exc
@@ -349,6 +359,12 @@ class PortalRun:
                     exc = make_exc(val)
                     rec.final = ("raise", exc)
                     raise exc
+                elif fin == F_CANCEL_OWN:
+                    # own outcome = a cancellation nobody requested through the portal: either the native
+                    # CancelledError just received from the awaited (cancelled) future / Task.cancel(), or a fresh one
+                    rec.final = ("cancelled",)
+                    rec.own_cancel = True
+                    raise err if err is not None else CancelledError()
                 else:
                     rec.final = ("cancelled",)
                     raise err
@@ -453,6 +469,13 @@ class PortalRun:
     def do(self, code: int, k: int = 0, a: int = 0, b: int = 0, c: int = 0, d: int = 0):
         before_int = {j for j, r in self.recs.items() if self.interruptible(r)}
         self._stopped_before_this_op = self.stopped_ever
+        if self.group_cancel_cause is None:
+            if code == STOP and a:
+                self.group_cancel_cause = "stop(cancel_remaining=True)"
+            elif code == HEXIT and a:
+                self.group_cancel_cause = "the body of the portal's context raised"
+            elif code == STEP and c == F_RAISE and d >= 100:
+                self.group_cancel_cause = "a callable raised a BaseException"
         try:
             res = self._perform(code, k, a, b, c, d)
         except HarnessError as e:
@@ -537,7 +560,12 @@ class PortalRun:
             else:
                 if h is not None or rec.waiter is None:
                     return 99
-                rec.waiter.set_result(None)
+                if c == F_CANCEL_OWN and d == OWN_AWAIT_CANCELLED:
+                    rec.waiter.cancel()             # "somebody" cancels the asyncio future the callable awaits
+                elif c == F_CANCEL_OWN and d == OWN_NATIVE:
+                    rec.task.cancel()               # a third party cancels the call's task natively
+                else:
+                    rec.waiter.set_result(None)
                 h = self._handle_of(rec.task)
             rec.next_action = (b, c, d)
             loop.run_handle(h)
@@ -639,6 +667,35 @@ class PortalRun:
     # ---- property monitors on the implementation's history (independent of the model) -----------------------
     def _monitor_step(self, code, k, a, b, c, d, res, before_int):
         rec = self.recs.get(k) if code in (ISSUE, LAND, STEP, REAP, FCANCEL, CLAND) else None
+        # -- nobody is cancelled without a cause: a task may receive a cancellation only because its own future was
+        #    cancelled by its caller or because the whole portal was told to cancel (stop(cancel_remaining=True), an
+        #    exception leaving the context's body, a BaseException out of a callable)
+        what = f"{OPN.get(code, code)} {k}" + (" (the call's own outcome is a cancellation)" if code == STEP and c == F_CANCEL_OWN else "")
+        if self.tg.cancel_scope.cancel_called and self.group_cancel_cause is None and not self.group_cancel_reported:
+            self.group_cancel_reported = True
+            self.mon.append(f"after {what} the portal's task group scope is cancelled although no stop(cancel_remaining=True) "
+                            f"ran, the context's body did not raise and no callable raised a BaseException")
+        for j in sorted({j for j, r in self.recs.items() if self.interruptible(r)} - before_int):
+            r = self.recs[j]
+            if not (r.fcancel_true or self.group_cancel_cause):
+                self.mon.append(f"after {what} a cancellation is delivered to call {j} although neither its own future was "
+                                f"cancelled nor cancel_remaining requested")
+        if self.host_state == "body" and self._handle_of(self.host_task) is not None and self.group_cancel_cause is None \
+                and not getattr(self, "_host_cancel_reported", False):
+            self._host_cancel_reported = True
+            self.mon.append(f"after {what} the host task was cancelled out of the body of the portal's context "
+                            f"(sleep_until_stopped) although nobody stopped the portal")
+        if code == STEP and res == 4 and c == F_CANCEL_OWN:
+            self.own_cancel_seen = True
+            self.flags.add(("own_cancel_raise", "own_cancel_awaited_future", "own_cancel_native_task_cancel")[d if (rec and rec.kind != KSYNC and d in (1, 2)) else 0])
+            if any(r.k != k and r.task is not None and not r.task.done() for r in self.recs.values()):
+                self.flags.add("own_cancel_with_others_in_flight")
+        if code == ISSUE and res == 0 and self.own_cancel_seen:
+            self.flags.add("call_accepted_after_own_cancel")
+        if code == STEP and res == 4 and rec is not None and rec.final is not None and rec.final[0] == "cancelled" \
+                and not rec.own_cancel and not (rec.fcancel_true or self.group_cancel_cause):
+            self.mon.append(f"callable of call {k} ended with a CancelledError it received although neither its own future was "
+                            f"cancelled nor cancel_remaining requested")
         for r in self.recs.values():
             if r.execs > 1:
                 self.mon.append(f"callable of call {r.k} was invoked {r.execs} times")
@@ -860,6 +917,7 @@ def random_case(rng: random.Random, nsteps: int, prefix: list[int] | None = None
     ncalls = ncalls or rng.choice([1, 2, 2, 3, 3, 4])
     w = {ISSUE: 4, LAND: 4, STEP: 5, REAP: 3, FCANCEL: rng.choice([0.5, 1.5, 3]), CLAND: 3,
          STOP: rng.choice([0.1, 0.4, 1.0]), HEXIT: rng.choice([0.2, 0.6, 1.5]), HRESUME: rng.choice([1, 3])}
+    w_own = rng.choice([0, 0.7, 2.0])      # how often a callable's own outcome is a foreign cancellation
     r = PortalRun(ncalls)
     val = 10
     with r:
@@ -884,17 +942,20 @@ def random_case(rng: random.Random, nsteps: int, prefix: list[int] | None = None
                 val += 1
                 can_start = rec.kind == KSTART and rec.status_fut is not None and not rec.status_fut.done()
                 sv = val + 100 if (can_start and rng.random() < 0.6) else 0
+                own_w = w_own
                 if rec.kind == KSYNC:
-                    fin = rng.choice([F_RETURN, F_RETURN, F_RAISE])
+                    fin = rng.choices([F_RETURN, F_RAISE, F_CANCEL_OWN], [2, 1, own_w])[0]
                 elif wk:
                     fin = rng.choice([F_RERAISE, F_RERAISE, F_RERAISE, F_RETURN, F_RAISE, F_BLOCK])
                 else:
-                    fin = rng.choice([F_BLOCK, F_BLOCK, F_BLOCK, F_RETURN, F_RAISE])
+                    fin = rng.choices([F_BLOCK, F_RETURN, F_RAISE, F_CANCEL_OWN], [3, 1, 1, own_w])[0]
                 d = 0
                 if fin == F_RETURN:
                     d = val
                 elif fin == F_RAISE:
                     d = rng.choice([1, 2, 3, 3, 100])
+                elif fin == F_CANCEL_OWN and rec.kind != KSYNC and rec.execs:
+                    d = rng.choice([OWN_RAISE, OWN_AWAIT_CANCELLED, OWN_NATIVE])
                 r.do(STEP, k, wk, sv, fin, d)
             elif code in (STOP, HEXIT):
                 r.do(code, 0, e[1])
@@ -961,7 +1022,8 @@ def exhaustive_cases(ncalls: int, depth: int, kinds=(KCORO,), budget: int = 1000
                 return [[STEP, k, 0, 0, F_RETURN, 70 + k]]
             if wk:
                 return [[STEP, k, 1, 0, F_RERAISE, 0], [STEP, k, 1, 0, F_RETURN, 80 + k]]
-            out = [[STEP, k, 0, 0, F_BLOCK, 0], [STEP, k, 0, 0, F_RETURN, 70 + k]]
+            out = [[STEP, k, 0, 0, F_BLOCK, 0], [STEP, k, 0, 0, F_RETURN, 70 + k],
+                   [STEP, k, 0, 0, F_CANCEL_OWN, OWN_NATIVE if rec.execs else OWN_RAISE]]
             if rec.kind == KSTART and rec.status_fut is not None and not rec.status_fut.done():
                 out.append([STEP, k, 0, 60 + k, F_BLOCK, 0])
             return out
@@ -1015,6 +1077,7 @@ class E2ECall:
         self.idx, self.api, self.is_coro, self.gated, self.fail = idx, api, is_coro, gated, fail
         self.started, self.cancel, self.late = started, cancel, late
         self.value = 1000 + idx
+        self.own_cancel = None        # None | 'raise' | 'await' | 'native': the callable's own outcome is a cancellation
         self.gate = threading.Event()
         self.issued = threading.Event()
         self.lock = threading.Lock()
@@ -1030,7 +1093,7 @@ class E2ECall:
 
     def describe(self):
         return {"idx": self.idx, "api": self.api, "coro": self.is_coro, "gated": self.gated, "fail": self.fail,
-                "started": self.started, "cancel": self.cancel, "late": self.late}
+                "started": self.started, "cancel": self.cancel, "late": self.late, "own_cancel": self.own_cancel}
 
 
 def e2e_make_fn(c: E2ECall):
@@ -1064,6 +1127,15 @@ def e2e_make_fn(c: E2ECall):
                     await anyio.sleep(0.001)
             else:
                 await anyio.sleep(0)
+            if c.own_cancel == "raise":
+                raise CancelledError()
+            if c.own_cancel == "await":        # plain asyncio interop: the awaited task is cancelled by somebody else
+                inner = asyncio.ensure_future(asyncio.sleep(30))
+                asyncio.get_running_loop().call_later(0.002, inner.cancel)
+                await inner
+            if c.own_cancel == "native":       # a third party cancels this call's task natively
+                asyncio.get_running_loop().call_later(0.002, asyncio.current_task().cancel)
+                await asyncio.sleep(30)
             if c.fail:
                 exc = Boom(c.idx)
                 c.outcome = ("raise", exc)
@@ -1094,6 +1166,8 @@ def e2e_scenario(rng: random.Random, backend_opts: dict, label: str):
         started = (2000 + i) if (api == "start" and (gated or rng.random() < 0.8)) else None
         cancel = (api == "soon" or (api == "start" and started is not None)) and rng.random() < 0.4
         calls.append(E2ECall(i, api, is_coro, gated, fail, started, cancel, False))
+        if is_coro and not cancel and rng.random() < 0.2:
+            calls[-1].own_cancel = rng.choice(["raise", "await", "native"])
     nlate = rng.choice([0, 1, 2])
     for j in range(nlate):
         calls.append(E2ECall(ncalls + j, rng.choice(["call", "soon", "start"]), True, False, False, 2500 + j, False, True))
@@ -1172,7 +1246,8 @@ def e2e_scenario(rng: random.Random, backend_opts: dict, label: str):
         exit_signal.set()
         return mon, {"label": label}, flags
 
-    actions = [("release", c) for c in calls if c.gated] + [("cancel", c) for c in calls if c.cancel] + [("exit", None)]
+    actions = [("release", c) for c in calls if c.gated] + [("cancel", c) for c in calls if c.cancel] + [("exit", None)] \
+        + [("probe", None)] * rng.choice([0, 1, 2])
     rng.shuffle(actions)
     order = []
     for what, c in actions:
@@ -1182,6 +1257,18 @@ def e2e_scenario(rng: random.Random, backend_opts: dict, label: str):
         if what == "release":
             order.append(("release", c.idx))
             c.gate.set()
+        elif what == "probe":
+            # the portal accepts calls until it is stopped, whatever happened to other calls
+            if st["t_exit_signal"] is None:
+                try:
+                    if st["portal"].call(lambda: 5) != 5:
+                        mon.append("probe call returned a wrong value")
+                    order.append(("probe", "ok"))
+                    flags.add("probe_before_stop")
+                except BaseException as e:  # noqa: BLE001
+                    order.append(("probe", repr(e)))
+                    mon.append(f"a call issued before the portal was asked to stop was not served: {e!r} "
+                               f"(own-cancellation calls so far: {[x.idx for x in calls if x.own_cancel and x.outcome]})")
         elif what == "cancel":
             if c.issued.wait(2.0) and c.fut is not None:
                 c.cancel_ret = c.fut.cancel()
@@ -1243,7 +1330,9 @@ def e2e_scenario(rng: random.Random, backend_opts: dict, label: str):
         got_cancel = tag == "exc" and isinstance(c.caller[1], FutCancelledError)
         if kind == "cancelled":
             flags.add("task_cancelled")
-            if not (c.cancel_ret is True or cancel_remaining):
+            if c.own_cancel:
+                flags.add("own_cancel_" + c.own_cancel)
+            elif not (c.cancel_ret is True or cancel_remaining):
                 mon.append(f"{who}: task was cancelled although neither its future was cancelled nor cancel_remaining requested")
             if not got_cancel and not (c.api == "start" and c.started is not None and c.caller[0] == "ok"):
                 mon.append(f"{who}: task cancelled but caller got {c.caller!r}")
@@ -1696,7 +1785,7 @@ def check(tier: str) -> int:
     for _, _, fl in e2e:
         for f in fl:
             e2e_flags[f] = e2e_flags.get(f, 0) + 1
-    interesting = {"two_phase_stop_with_running_calls", "interrupt", "future_cancel_interrupts_task", "land_during_exit_checkpoint", "land_during_exit_wait",
+    interesting = {"own_cancel_with_others_in_flight", "two_phase_stop_with_running_calls", "interrupt", "future_cancel_interrupts_task", "land_during_exit_checkpoint", "land_during_exit_wait",
                    "land_refused_group_inactive", "issue_refused_after_stop", "result_dropped_cancelled", "host_rewaits",
                    "future_cancel_after_stop", "started"}
     distinct = len({tuple(c) for c, r in zip(cases, runs) if r.flags & interesting})
@@ -1744,11 +1833,12 @@ def check(tier: str) -> int:
         "samples": [{"ncalls": runs[i].ncalls, "ops": readable(runs[i].ops)[:25], "outs": runs[i].outs[:50]} for i in idx[:2]]
                    + [e2e[0][1]] if e2e else [],
     })
-    for need in sorted(interesting | {"left", "answer_value", "answer_exception", "answer_cancelled", "stop_cancel_remaining",
+    for need in sorted(interesting | {"own_cancel_raise", "own_cancel_awaited_future", "own_cancel_native_task_cancel",
+                                      "call_accepted_after_own_cancel", "left", "answer_value", "answer_exception", "answer_cancelled", "stop_cancel_remaining",
                                       "future_cancel_before_first_step", "interrupt_swallowed", "land_after_stop_accepted"}):
         if not flags.get(need):
             rep.notes.append(f"generator self-check: predicate {need} never reached")
-    for need in ("two_phase_stop", "refused", "task_cancelled", "future_cancelled", "value", "exception", "started", "cancel_remaining",
+    for need in ("own_cancel_raise", "own_cancel_await", "own_cancel_native", "probe_before_stop", "two_phase_stop", "refused", "task_cancelled", "future_cancelled", "value", "exception", "started", "cancel_remaining",
                  "finished_after_stop_requested"):
         if not e2e_flags.get(need):
             rep.notes.append(f"e2e generator self-check: predicate {need} never reached")
